@@ -104,7 +104,7 @@ static void expect_bindf_args(int const* in, Exp e)
 static void expect_notfn(int const* in, Exp e)
 {
     int a = in[0], b = in[1], s = in[2];
-    bool pr = (long long)a + s < b;
+    bool pr = (a ^ s) < b;
     e.ncall(W_PRED, s, a, b, 1, !pr); e.ncall(W_PRED, s, a, b, 2, !pr); e.ncall(W_PRED, s, a, b, 3, !pr); e.ncall(W_PRED, s, a, b, 4, !pr);
     e.ncall(W_PRED, s, a, b, 1, !pr); e.ncall(W_PRED, 0, a, b, 0, !(a < b));
     e.ncall(W_MEMFN, s, a, b, 2, tgt_result(W_MEMFN, s, a, b) == 0);
@@ -131,7 +131,7 @@ C20_OPLIST(X)
 #undef X
 
 extern "C" {
-bool k_notfn_stateless(int, int); bool k_notfn_stateless_mem(int, int, int);
+bool k_notfn_stateless(int, int);
 sz k_fr_sizeof(); sz k_fun_sizeof(); void k_fun_make(void*, int); void k_fr_from_fun(void*, void*); void k_fr_from_cfun(void*, void const*);
 void k_fr_from_fn(void*); void k_fr_from_fnptr(void*); void k_fr_copy(void*, void const*); void k_fr_assign(void*, void const*); void k_fr_swap(void*, void*);
 int k_fr_call(void const*, int, int); int k_fr_invoke(void const*, int, int); int k_fr_temp_fun(int, int, int); int k_fr_lambda(int, int, int);
@@ -162,15 +162,11 @@ static void expect_log(int r, int who, int state, int a0, int a1, int flav, char
 // ---- stateless not_fn<fn>()
 Q q_notfn_stateless()
 {
-    int a = vf_nd_i32(), b = vf_nd_i32(), s = vf_nd_i32();
+    int a = vf_nd_i32(), b = vf_nd_i32();
     vf_log_reset();
     bool r = k_notfn_stateless(a, b);
     vf_assert(vf_ncalls == 1 && vf_who == W_PRED && vf_a0 == a && vf_a1 == b, "not_fn<f>(): f called exactly once with the same arguments");
     vf_assert(r == !(a < b), "not_fn<f>() returns the negation");
-    vf_log_reset();
-    r = k_notfn_stateless_mem(s, a, b);
-    vf_assert(vf_ncalls == 1 && vf_who == W_MEMFN && vf_state == s && vf_a0 == a && vf_a1 == b && vf_flav == 2, "not_fn<pmf>(): member called exactly once");
-    vf_assert(r == (tgt_result(W_MEMFN, s, a, b) == 0), "not_fn<pmf>() returns the negation");
 }
 
 // ------------------------------------------------------------------------------------------------------------------
@@ -254,7 +250,6 @@ extern "C" void vf_bad_call(void)
 {
     vf_assert(g_expect_empty, "bad_function_call raised by a wrapper that holds a target");
     vf_assert(vf_ncalls == 0, "an empty wrapper called something");
-    vf_witness("empty call reaches the bad_function_call handler");
     vf_assume(false);
 }
 static void by_kind(void* f, int kind, int s, int how) // how: 0 assign, 1 construct from rvalue, 2 construct from lvalue
@@ -295,55 +290,58 @@ static void check_state(void* const* f, M const* m)
     vf_assert(vf_live == int(is_nt(m[0].kind)) + int(is_nt(m[1].kind)), "every non-trivial target constructed is destroyed exactly once (ledger)");
     vf_assert(vf_corrupt == 0, "no target was copied from / destroyed / called outside its lifetime, captures intact");
 }
+#define NOPS 14
 struct Step { unsigned op, i, j, kind, how; int s, a; };
-static Step draw_step()
+static Step draw_step(int fixed_op, int fi = -1, int fj = -1)
 {
     Step t;
     t.op = vf_nd_u8(); t.i = vf_nd_u8(); t.j = vf_nd_u8(); t.kind = vf_nd_u8(); t.how = vf_nd_u8(); t.s = vf_nd_i32(); t.a = vf_nd_i32();
     vf_assume(t.i < 2 && t.j < 2 && t.kind >= 1 && t.kind <= NK && t.how < 3);
-#ifdef OP
-    vf_assume(t.op == OP);
-#else
-    vf_assume(t.op < 14);
-#endif
+    if (fixed_op >= 0) t.op = unsigned(fixed_op); // enumerated operation code (constant for the solver run)
+    else vf_assume(t.op < NOPS);
+    if (fi >= 0) t.i = unsigned(fi); // enumerated object indices
+    if (fj >= 0) t.j = unsigned(fj);
     return t;
 }
-#define NOPS 14
+// FIX >= 0: the operation code is enumerated (one query per code), FIX < 0: symbolic. Witnesses of a branch exist only in the
+// instantiations that can reach it.
+#define WIT(n, text) do { if constexpr (FIX < 0 || FIX == (n)) vf_witness(text); } while (0)
+template <int FIX>
 static void do_step(void* const* f, M* m, Step t)
 {
     unsigned i = t.i, j = t.j;
     g_expect_empty = false; vf_log_reset();
     switch (t.op) {
     case 0: // assign a callable
-        by_kind(f[i], t.kind, t.s, 0); m[i] = M{int(t.kind), t.s}; vf_witness("step: assign callable");
+        by_kind(f[i], t.kind, t.s, 0); m[i] = M{int(t.kind), t.s}; WIT(0, "step: assign callable");
         break;
     case 1: // copy assignment (self included)
-        k_ipf_copy_assign(f[i], f[j]); m[i] = m[j]; vf_witness("step: copy assign");
+        k_ipf_copy_assign(f[i], f[j]); m[i] = m[j]; WIT(1, "step: copy assign");
         break;
     case 2: // move assignment; self move: only a valid state is required (std leaves it unspecified)
         k_ipf_move_assign(f[i], f[j]);
         if (i != j) { m[i] = m[j]; m[j] = M{0, 0}; }
         else if (!k_ipf_bool(f[i])) m[i] = M{0, 0};
-        vf_witness("step: move assign");
+        WIT(2, "step: move assign");
         break;
     case 3: // member swap (self included)
         VF_KNOWN(C20_inplace_function_self_swap, i == j && is_nt(m[i].kind));
-        k_ipf_swap(f[i], f[j]); { M x = m[i]; m[i] = m[j]; m[j] = x; } vf_witness("step: swap");
+        k_ipf_swap(f[i], f[j]); { M x = m[i]; m[i] = m[j]; m[j] = x; } WIT(3, "step: swap");
         break;
     case 4:
         VF_KNOWN(C20_inplace_function_self_swap, i == j && is_nt(m[i].kind));
         k_ipf_swap_free(f[i], f[j]); { M x = m[i]; m[i] = m[j]; m[j] = x; }
         break;
     case 5:
-        k_ipf_reset(f[i]); m[i] = M{0, 0}; vf_witness("step: reset");
+        k_ipf_reset(f[i]); m[i] = M{0, 0}; WIT(5, "step: reset");
         break;
     case 6: // copy, then call the copy; the original keeps its target
         g_expect_empty = m[i].kind == 0;
-        check_result(k_ipf_copy_call(f[i], t.a), m[i], t.a, "copy of a wrapper calls an equivalent target"); vf_witness("step: copy then call");
+        check_result(k_ipf_copy_call(f[i], t.a), m[i], t.a, "copy of a wrapper calls an equivalent target"); WIT(6, "step: copy then call");
         break;
     case 7: // move, then call the new wrapper; the source is empty afterwards
         g_expect_empty = m[i].kind == 0;
-        check_result(k_ipf_move_call(f[i], t.a), m[i], t.a, "moved-to wrapper calls an equivalent target"); m[i] = M{0, 0}; vf_witness("step: move then call");
+        check_result(k_ipf_move_call(f[i], t.a), m[i], t.a, "moved-to wrapper calls an equivalent target"); m[i] = M{0, 0}; WIT(7, "step: move then call");
         break;
     case 8: // converting copy into a wrapper of larger capacity
         g_expect_empty = m[i].kind == 0;
@@ -354,15 +352,17 @@ static void do_step(void* const* f, M* m, Step t)
         check_result(k_ipf_conv_move_call(f[i], t.a), m[i], t.a, "move into a larger wrapper calls an equivalent target"); m[i] = M{0, 0};
         break;
     case 10:
-        check_call(f[i], m[i], t.a); vf_witness("step: call");
+        if (m[i].kind == 0) WIT(10, "step: call through an empty wrapper (must end in the bad_function_call handler)");
+        else WIT(10, "step: call through a wrapper holding a target");
+        check_call(f[i], m[i], t.a);
         break;
     case 11: // destroy, copy-construct in place from the other object
         vf_assume(i != j);
-        k_ipf_destroy(f[i]); k_ipf_copy_ctor(f[i], f[j]); m[i] = m[j]; vf_witness("step: copy construct");
+        k_ipf_destroy(f[i]); k_ipf_copy_ctor(f[i], f[j]); m[i] = m[j]; WIT(11, "step: copy construct");
         break;
     case 12:
         vf_assume(i != j);
-        k_ipf_destroy(f[i]); k_ipf_move_ctor(f[i], f[j]); m[i] = m[j]; m[j] = M{0, 0}; vf_witness("step: move construct");
+        k_ipf_destroy(f[i]); k_ipf_move_ctor(f[i], f[j]); m[i] = m[j]; m[j] = M{0, 0}; WIT(12, "step: move construct");
         break;
     default: // destroy, construct from a callable (rvalue or lvalue source)
         vf_assume(t.how >= 1);
@@ -371,6 +371,7 @@ static void do_step(void* const* f, M* m, Step t)
     }
     check_state(f, m);
 }
+template <bool BOTH_CAN_HOLD>
 static void finish(void* const* f, M* m)
 {
     unsigned sel = vf_nd_u8(); int a = vf_nd_i32();
@@ -378,8 +379,9 @@ static void finish(void* const* f, M* m)
     if (sel < 2) {
         check_call(f[sel], m[sel], a);
         if (m[1 - sel].kind != 0) check_call(f[1 - sel], m[1 - sel], a);
-        if (m[0].kind != 0 && m[1].kind != 0) vf_witness("both wrappers hold a target at the end");
-        if (is_nt(m[0].kind) && is_nt(m[1].kind)) vf_witness("both wrappers hold a non-trivial target at the end");
+        if constexpr (BOTH_CAN_HOLD) {
+            if (m[0].kind != 0 && m[1].kind != 0) vf_witness("both wrappers hold a target at the end");
+        }
     }
     k_ipf_destroy(f[0]); k_ipf_destroy(f[1]);
     vf_assert(vf_live == 0, "destroying the wrappers destroys every target (ledger)");
@@ -388,7 +390,8 @@ static void finish(void* const* f, M* m)
 // every operation from every abstract state: both objects are created in blocks of symbolic bytes and brought into an
 // arbitrary state (empty through the default / nullptr constructor, or any target kind through the rvalue / lvalue
 // constructor), then one symbolic operation, then both are called and destroyed
-Q q_ipf_step()
+template <int FIX, int FI = -1, int FJ = -1>
+static void ipf_step()
 {
     void* f[2]; M m[2];
     vf_live = 0; vf_corrupt = 0;
@@ -400,17 +403,24 @@ Q q_ipf_step()
         else { by_kind(f[t], kind, s, how); m[t] = M{int(kind), s}; }
     }
     check_state(f, m);
-    do_step(f, m, draw_step());
-    finish(f, m);
+    do_step<FIX>(f, m, draw_step(FIX, FI, FJ));
+    // (reset, move-from and move assignment between distinct objects leave one wrapper empty)
+    finish<FIX != 5 && FIX != 7 && FIX != 9 && FIX != 12 && !(FIX == 2 && FI != FJ)>(f, m);
 }
+// one entry per (operation code, object index i, object index j): codes and indices are enumerated, everything else symbolic
+#define STEP(n, i, j) Q q_ipf_step_##n##_##i##j() { ipf_step<n, i, j>(); }
+#define STEP2(n) STEP(n, 0, 0) STEP(n, 0, 1) STEP(n, 1, 0) STEP(n, 1, 1) // operations on two objects (self included)
+#define STEP2X(n) STEP(n, 0, 1) STEP(n, 1, 0)                            // two distinct objects
+#define STEP1(n) STEP(n, 0, 0) STEP(n, 1, 1)                             // operations on one object
+STEP1(0) STEP2(1) STEP2(2) STEP2(3) STEP2(4) STEP1(5) STEP1(6) STEP1(7) STEP1(8) STEP1(9) STEP1(10) STEP2X(11) STEP2X(12) STEP1(13)
 // histories of KSTEPS symbolic operations from two default-constructed wrappers
 Q q_ipf_hist()
 {
     void* f[2]; M m[2];
     vf_live = 0; vf_corrupt = 0;
     for (int t = 0; t < 2; t++) { f[t] = vf_sym_bytes(k_ipf_sizeof()); k_ipf_default(f[t]); m[t] = M{0, 0}; }
-    for (int k = 0; k < KSTEPS; k++) do_step(f, m, draw_step());
-    finish(f, m);
+    for (int k = 0; k < KSTEPS; k++) do_step<-1>(f, m, draw_step(-1));
+    finish<true>(f, m);
 }
 Q q_ipf_misc()
 {
